@@ -51,6 +51,9 @@ type target struct {
 	run   func(in []byte) error
 	// weight scales the number of inputs (slow targets < 1).
 	weight float64
+	// calls = decoder invocations per run (scales the allocation bound); allocPerByte overrides the 2000 bytes/byte allowance.
+	calls        int
+	allocPerByte int
 	// noOK marks targets whose decoder has no success outcome to demand (none today).
 	noOK bool
 }
@@ -403,6 +406,18 @@ func (m *monitor) runChunk(t *target, chunk, n int) {
 		}
 		k := last.started
 		switch {
+		case last.cpuStop && last.cpuAlloc > t.allocLimit(len(ins[k].data)):
+			// the CPU went into touching an allocation beyond the bound: an allocation finding, not a CPU one
+			_, fn, _ := classifyFatal("goroutine 1 [running]:\n" + afterGoroutine1(string(stderrB)))
+			if fn == "" {
+				fn = "?"
+			}
+			m.mu.Lock()
+			m.st(t).CPUStop++
+			m.mu.Unlock()
+			r.Violation(fmt.Sprintf("alloc target=%s site=%s", t.name, fn), m.detail(t, chunk, k, ins[k], map[string]interface{}{
+				"allocated_bytes_when_stopped": last.cpuAlloc, "cpu_us_when_stopped": last.cpuUsed, "bound_bytes": t.allocLimit(len(ins[k].data)), "stacks": tail(string(stderrB), 4000)}))
+			r.SetAdd("alloc_sites", fn)
 		case last.cpuStop:
 			m.mu.Lock()
 			m.st(t).CPUStop++
@@ -437,6 +452,22 @@ func (m *monitor) runChunk(t *target, chunk, n int) {
 	}
 }
 
+// afterGoroutine1 returns the stack of goroutine 1 from an all-goroutines dump.
+func afterGoroutine1(dump string) string {
+	i := strings.Index(dump, "goroutine 1 [")
+	if i < 0 {
+		return ""
+	}
+	blk := dump[i:]
+	if j := strings.Index(blk, "\n"); j >= 0 {
+		blk = blk[j+1:]
+	}
+	if j := strings.Index(blk, "\n\n"); j >= 0 {
+		blk = blk[:j]
+	}
+	return blk
+}
+
 func tail(s string, n int) string {
 	if len(s) > n {
 		return s[:n/2] + "\n...\n" + s[len(s)-n/2:]
@@ -454,8 +485,9 @@ type jrec struct {
 
 type jlast struct {
 	started int // last index with an S line and no R line; -1 if none
-	cpuStop bool
-	cpuUsed int64
+	cpuStop  bool
+	cpuUsed  int64
+	cpuAlloc uint64
 }
 
 type jparsed struct {
@@ -506,6 +538,13 @@ func (m *monitor) runChild(t *target, batch, journal, errPath string, from int, 
 				if len(p) >= 3 {
 					jp.last.cpuStop = true
 					jp.last.cpuUsed, _ = strconv.ParseInt(p[2], 10, 64)
+					if len(p) >= 4 {
+						jp.last.cpuAlloc, _ = strconv.ParseUint(p[3], 10, 64)
+					}
+					// the call may have ended while the watchdog was writing: the index of the T record decides
+					if ti, err := strconv.Atoi(p[1]); err == nil {
+						open = ti
+					}
 				}
 			case l == "E":
 				ended = true
@@ -618,7 +657,7 @@ func (m *monitor) consume(t *target, chunk int, ins []input, jp jparsed) jlast {
 		outcomeAlloc := false
 		_ = outcomeAlloc
 		r.Distinct(t.name + "|" + outcome + "|" + in.class)
-		if rec.alloc > allocLimit(len(in.data)) && rec.kind != 'p' {
+		if rec.alloc > t.allocLimit(len(in.data)) && rec.kind != 'p' {
 			// the child repeated the call between two memory-profile snapshots ("A" record)
 			if a, ok := jp.allocAt[rec.idx]; ok {
 				p := strings.SplitN(a, " ", 2)
@@ -627,9 +666,9 @@ func (m *monitor) consume(t *target, chunk int, ins []input, jp jparsed) jlast {
 				if len(p) == 2 {
 					site = p[1]
 				}
-				if alloc2 > allocLimit(len(in.data)) {
+				if alloc2 > t.allocLimit(len(in.data)) {
 					r.Violation(fmt.Sprintf("alloc target=%s site=%s", t.name, site), m.detail(t, chunk, rec.idx, in, map[string]interface{}{
-						"allocated_bytes": rec.alloc, "allocated_bytes_on_repeat": alloc2, "bound_bytes": allocLimit(len(in.data))}))
+						"allocated_bytes": rec.alloc, "allocated_bytes_on_repeat": alloc2, "bound_bytes": t.allocLimit(len(in.data))}))
 					r.SetAdd("alloc_sites", site)
 					outcomeAlloc = true
 				} else {
@@ -639,7 +678,7 @@ func (m *monitor) consume(t *target, chunk int, ins []input, jp jparsed) jlast {
 				r.Count("alloc_over_bound_without_repeat_record", 1)
 			}
 		}
-		if rec.cpu > cpuLimitMicros(len(in.data)) {
+		if rec.cpu > cpuLimitMicros(len(in.data)) && rec.alloc <= t.allocLimit(len(in.data)) {
 			m.addSuspect(suspect{kind: "cpu", t: t, in: in, warm: ins[0], chunk: chunk, idx: rec.idx, seen: uint64(rec.cpu)})
 		}
 		kind := map[byte]string{'o': "ok", 'e': "error", 'p': "panic"}[rec.kind]
@@ -710,7 +749,7 @@ func (m *monitor) confirmSuspects() {
 					if rec.idx != 1 {
 						continue
 					}
-					if s.kind == "alloc" && rec.alloc > allocLimit(len(s.in.data)) {
+					if s.kind == "alloc" && rec.alloc > s.t.allocLimit(len(s.in.data)) {
 						hit = true
 						measured = append(measured, rec.alloc)
 						if a, ok := jp.allocAt[1]; ok {
@@ -733,7 +772,7 @@ func (m *monitor) confirmSuspects() {
 				}
 			}
 			det := m.detail(s.t, s.chunk, s.idx, s.in, map[string]interface{}{"first_measurement": s.seen, "stacks_at_cpu_limit": s.note, "isolated_measurements": measured, "bound": map[string]interface{}{
-				"alloc_bytes": allocLimit(len(s.in.data)), "cpu_us": cpuLimitMicros(len(s.in.data))}})
+				"alloc_bytes": s.t.allocLimit(len(s.in.data)), "cpu_us": cpuLimitMicros(len(s.in.data))}})
 			switch {
 			case s.kind == "alloc" && confirmed == 1:
 				r.Violation(fmt.Sprintf("alloc target=%s site=%s", s.t.name, site), det)
